@@ -345,6 +345,7 @@ package ristretto
 //@   ensures [C17] #cost-conserved p.metrics != nil ==> costSlack(p.metrics, p.evict) == old(costSlack(p.metrics, p.evict))
 //@   ensures [C17] #card gcCard(p.evict.keyCosts) == old(gcCard(p.evict.keyCosts))-len(result0)+ite(result1, 1, 0)
 //@   ensures [C17] #key-conserved p.metrics != nil ==> mtot(p.metrics, keyEvict)+uint64(gcCard(p.evict.keyCosts)) == old(mtot(p.metrics, keyEvict)+uint64(gcCard(p.evict.keyCosts)))+ite(result1, uint64(1), uint64(0))
+//@   ensures [C17] #key-slack p.metrics != nil ==> keySlack(p.metrics, p.evict)+ite(result1, uint64(1), uint64(0)) == old(keySlack(p.metrics, p.evict))
 //@   ensures [C17] #keyadd-untouched p.metrics != nil ==> mtot(p.metrics, keyAdd) == old(mtot(p.metrics, keyAdd))
 //@   ensures [C17] #admission-counted p.metrics != nil && result1 ==> mtot(p.metrics, costAdd) == old(mtot(p.metrics, costAdd))+uint64(cost)
 
@@ -693,6 +694,8 @@ package ristretto
 //@   at call Set#* assert [C04,C13] #stored-only-if-admitted added
 //@   at call onReject#* assert [C04] #rejected-only-if-not-admitted !added && gcCalls(c.onReject) == oldat("beforeAdd", gcCalls(c.onReject))
 //@   loop 2 invariant [C17] #conserved conserved(c)
+//@   at call Set#1 assert [C17] #hint-admitted c.Metrics == nil || (costSlack(c.Metrics, c.cachePolicy.evict) == 0 && keySlack(c.Metrics, c.cachePolicy.evict)+1 == 0)
+//@   at call onReject#1 assert [C17] #hint-rejected c.Metrics == nil || (costSlack(c.Metrics, c.cachePolicy.evict) == 0 && keySlack(c.Metrics, c.cachePolicy.evict) == 0)
 //@   loop 2 invariant [C04] #disposed added || gcCalls(c.onReject) == oldat("beforeAdd", gcCalls(c.onReject))+1
 //@   loop 2 modifies allmaps(cacheSM(c).shards[0].data), cacheSM(c).expiryMap.buckets[*][*], gcMtot[*], startTs[*]
 //@   loop 2 invariant #ok applierOK(c)
